@@ -71,20 +71,31 @@ def _is_injected(t, ex):
 
 def budget(tier):
     if tier == 'quick':
-        return {'cases': 24000, 'wall_cap_s': 240}
+        return {'cases': 40000, 'wall_cap_s': 240}
     return {'cases': 800000, 'wall_cap_s': 1500}
 
 
+C01_PAIRS = [(n, i) for n in C01_NAMES
+             for i in range(len(RECIPES[n].variants))]
+
+
 def gen_case(rng, tier, g):
+    vi0 = None
     maxrows = 8 if tier == 'quick' else 12
     quar = quarantined(PROP)
     if rng.random() < 0.45:
         name = rng.choice(HOT)
     else:
-        name = C01_NAMES[g % len(C01_NAMES)] if rng.random() < 0.5 \
-            else rng.choice(C01_NAMES)
+        name = rng.choice(C01_NAMES)
+        if rng.random() < 0.5:
+            # round robin over every (recipe, argument variant) pair: each
+            # one gets its share of the run, however many variants a recipe
+            # has
+            name, vi0 = C01_PAIRS[g % len(C01_PAIRS)]
     rec = RECIPES[name]
     stack = [[name, rng.randrange(len(rec.variants))]]
+    if vi0 is not None:
+        stack[0][1] = vi0
     if not rec.items and not rec.multi and name not in quar \
             and rng.random() < 0.3:
         for _ in range(rng.choice([1, 1, 2])):
